@@ -732,6 +732,28 @@ impl<F: Read + Write + Seek> Package<F> {
                 &validation_rows,
             )?;
         }
+        // The string pool must have room for the strings of all three.
+        {
+            let validation_strings = if has_validation_table {
+                validation_rows.iter()
+            } else {
+                [].iter()
+            };
+            let strings = columns_rows
+                .iter()
+                .chain(tables_rows.iter())
+                .chain(validation_strings)
+                .flatten()
+                .filter_map(Value::as_str)
+                .filter(|string| !string.is_empty());
+            if !self.string_pool.can_intern_all(strings) {
+                invalid_input!(
+                    "Cannot create table {:?}: too many distinct strings in \
+                     the database",
+                    table_name
+                );
+            }
+        }
         self.insert_rows(Insert::into(COLUMNS_TABLE_NAME).rows(columns_rows))?;
         self.insert_rows(Insert::into(TABLES_TABLE_NAME).rows(tables_rows))?;
         let long_string_refs = self.string_pool.long_string_refs();
